@@ -21,7 +21,7 @@ RULE = ("Constructor inputs as plain data x one global duration setting (readout
         "description route {none, from_chain, from_initial_state, from_connectivity(sub-chain of the three shipped "
         "layouts), composite description = such a sub-chain with 0-3 excluded gates / an excluded ancilla / one qubit whose rotations are excluded, "
         "given to the full or the simplified constructor, which yields parking-only gate layers and layers that close an ancilla without activating another} and refocusing on/off as in C09 (a third of the cases prepares data / ancilla qubits in any of the six initial states 0 1 + - +i -i), and construct_calibration_circuit (QUBIT / QUTRIT, 1..6 qubits on "
-        "arbitrary distinct channel indices). duration_grid enumerates all 4^4 settings over {0.5,1,2,3} for a fixed d=2, "
+        "arbitrary distinct channel indices). layout_subchains enumerates every contiguous data-to-data window of the three shipped layouts (thorough: both directions) for the simplified constructor (windows of distance >= 4 and the thorough tier: both constructors), 2 cycles; duration_grid enumerates all 4^4 settings over {0.5,1,2,3} for a fixed d=2, "
         "3-cycle chain (full constructor, refocusing on) completely; cycle_sweep enumerates cycles 0..6 (thorough 0..8) x "
         "{full, simplified} x refocusing on/off x 3 (thorough 5) fixed duration settings for a d=3 chain. Each case builds the circuit inside the override "
         "twice: as built, and followed by apply_modifiers(); operations are listed once, then all times are read under "
@@ -369,13 +369,30 @@ def items_cycle_sweep(tier):
                            "refocus": refocus, "durations": durations}
 
 
+def items_layout_subchains(tier):
+    """Every contiguous data-to-data window of the three shipped layouts (either direction in the thorough tier): which gates
+    share a layer, and which qubits must park meanwhile, differs from window to window."""
+    for layout in sorted(rep.LAYOUT_CHAINS):
+        chain = rep.LAYOUT_CHAINS[layout]
+        n_data = (len(chain) + 1) // 2
+        for d in range(2, n_data + 1):
+            for start in range(0, n_data - d + 1):
+                sub = chain[2 * start: 2 * start + 2 * d - 1]
+                for qubits in ([sub] if tier == "quick" else [sub, sub[::-1]]):
+                    for ctor in (["simplified"] if (tier == "quick" and d <= 3) else ["simplified", "full"]):
+                        yield {"ctor": ctor, "desc": "connectivity", "layout": layout, "qubits": list(qubits), "d": d,
+                               "data": [i % 2 for i in range(d)], "anc": None, "refocus": True, "cycles": 2,
+                               "durations": [2.0, 1.0, 1.0, 2.0] if (start + d) % 2 else [1.0, 0.5, 2.0, 1.5]}
+
+
 def parts():
     return [
         Part("duration_grid", body, items=items_grid, exhaustive=True),
         Part("cycle_sweep", body, items=items_cycle_sweep, exhaustive=True),
+        Part("layout_subchains", body, items=items_layout_subchains, exhaustive=True),
         Part("repcode_full", body, strategy=strat_full, quick=70, thorough=450),
         Part("repcode_full_large", body, strategy=strat_full_large, quick=0, thorough=60),
-        Part("repcode_simplified", body, strategy=strat_simplified, quick=80, thorough=600),
+        Part("repcode_simplified", body, strategy=strat_simplified, quick=50, thorough=600),
         Part("repcode_composite", body, strategy=strat_composite, quick=110, thorough=500),
         Part("multi_round", body, strategy=strat_multi, quick=20, thorough=100),
         Part("calibration", body, strategy=strat_calibration, quick=120, thorough=800),
